@@ -42,7 +42,7 @@ THEOREMS = [
     "C12_legacy_offset", "C12_legacy_extra_headers", "C12_legacy_metadata_target",
     "C12_input_untouched_refuted_old", "C12_extid_roundtrip_refuted_old",
     "C12_roundtrip_refuted_untyped_raw_manifest", "C12_schema_matches_generated",
-    "C12_valid_satisfiable",
+    "C12_valid_satisfiable", "C12_swhid_contract_satisfiable",
 ]
 RULE = ("objects of the 18 model classes generated from the attrs schemas: full presence matrix of the optional "
         "fields (exhaustive up to 8, sampled beyond), every admissible context subset of RawExtrinsicMetadata per "
